@@ -50,6 +50,12 @@ type crawlResult struct {
 
 type stageHarness struct {
 	preIn, preOut, postIn, postOut chan *models.Item
+	// onPre, if set, is called after every preprocessor pass with stamps taken from stamp() before the
+	// seed was handed to the stage and after it came back.
+	onPre func(pass int, seed *models.Item, before, after int64)
+	stamp func() int64
+	// onPost, if set, is called after every postprocessor pass (new fresh children carry their raw text)
+	onPost func(seed *models.Item)
 
 	mu       sync.Mutex
 	preWait  map[string]chan *models.Item
@@ -153,8 +159,15 @@ func (h *stageHarness) crawl(seed *models.Item, fetch fetchFn, maxPasses int) *c
 	vias := map[string]bool{}
 	for pass := 0; pass < maxPasses; pass++ {
 		res.Passes = pass + 1
+		var before int64
+		if h.stamp != nil {
+			before = h.stamp()
+		}
 		h.preIn <- seed
 		<-pre
+		if h.onPre != nil {
+			h.onPre(pass, seed, before, h.stamp())
+		}
 		// ---- archiver (mirrors archiver.worker/archive; the fetch is fabricated) ----
 		if st := seed.GetStatus(); st == models.ItemPreProcessed || st == models.ItemGotRedirected || st == models.ItemGotChildren {
 			items, err := seed.GetNodesAtLevel(seed.GetMaxDepth())
@@ -201,6 +214,9 @@ func (h *stageHarness) crawl(seed *models.Item, fetch fetchFn, maxPasses int) *c
 		// ---- postprocessor ----
 		h.postIn <- seed
 		<-post
+		if h.onPost != nil {
+			h.onPost(seed)
+		}
 		res.Outlinks = append(res.Outlinks, h.takeOutlinks(vias)...)
 		// ---- finisher ----
 		if err := seed.CheckConsistency(); err != nil {
